@@ -12,6 +12,10 @@
   The arms below are transcribed by hand from the three macros (guard, function called,
   `#[target_feature]` list on that function, `Machine` type instantiated), top to bottom.
   `light128` and `light256` have identical arms.
+  The transcription is tied to the source: `tools/inventory_dispatch.py` re-extracts the arms from
+  `x86_64/mod.rs` into `CC/Gen/Dispatch.lean` on every run and `CC.Thm.C03.ladder_extracted`,
+  `final_else_as_modelled`, `machine_types_as_modelled` compare them with `ladder`, `finalElse`,
+  `typeAliases` below.
 -/
 import CC.Simd.VOps
 namespace CC.Simd.Dispatch
@@ -90,6 +94,20 @@ def ladder : Macro → Mode → List Arm
   | .light128, .std => lightStdArms
   | .light256, .std => lightStdArms
   | _, .nostd => nostdArms
+
+/-- what the final `else` of a chain does: it is the last arm (guard `none`) or `unimplemented!()` -/
+def finalElse (m : Macro) (md : Mode) : String :=
+  if (ladder m md).any (·.guard.isNone) then "arm" else "unimplemented!()"
+
+/-- the `Machine` type aliases of `x86_64/mod.rs` and the backend each one denotes in the model
+    (`pub type SSE2 = SseMachine<NoS3, NoS4, NoNI>` … `pub type AVX2 = Avx2Machine<NoNI>`) -/
+def typeAliases : List (String × Backend) :=
+  [("SSE2", .sse2), ("SSSE3", .ssse3), ("SSE41", .sse41), ("AVX", .avx), ("AVX2", .avx2)]
+
+/-- instruction-set features used by the code of a `Machine` type with these parameters
+    (`S3 = YesS3`, `S4 = YesS4`, `Avx2Machine`); x86-64 baseline `sse2` -/
+def usesOf (s3 s4 isAvx2 : Bool) : List F :=
+  [.sse2] ++ (if s3 then [.ssse3] else []) ++ (if s4 then [.sse41] else []) ++ (if isAvx2 then [.avx, .avx2] else [])
 
 def Arm.fires (a : Arm) (f : Feat) : Bool :=
   match a.guard with
